@@ -6,15 +6,15 @@ import oracles
 TABLE = {
     "C01": dict(profiles=["general", "stamp", "defaults", "failures"], want={"fresh", "once"},
                 theorems=["C01_never_built_is_dirty", "C01_failed_is_dirty", "C01_newer_dep_is_dirty"]),
-    "C02": dict(profiles=["general", "defaults", "ifcreate"], want={"noop", "once", "fresh"},
+    "C02": dict(profiles=["general", "defaults", "ifcreate", "override", "stamp"], want={"noop", "once", "fresh", "reason"},
                 theorems=["C02_never_built_runs", "C02_failed_runs", "C02_check_no_file_effect"]),
     "C03": dict(profiles=["stamp"], want={"fresh", "once"},
                 theorems=["C03_stamp_unchanged", "C03_stamp_changed", "C03_newer_dep_forwards"]),
     "C05": dict(profiles=["failures"], want={"fail", "once"},
                 theorems=["C05_not_twice", "C05_stop", "C05_marked_failed", "C05_failed_is_dirty"]),
-    "C11": dict(profiles=["general", "defaults", "outputs"], want={"user", "fresh"},
+    "C11": dict(profiles=["override", "general", "defaults", "override"], want={"user", "fresh"},
                 theorems=["C11_user_file_untouched", "C11_check_readonly", "C11_record_only_own_target", "C11_queries_readonly"]),
-    "C14": dict(profiles=["ifcreate", "always"], want={"fresh", "once", "noop"},
+    "C14": dict(profiles=["ifcreate", "always"], want={"fresh", "once", "noop", "reason"},
                 theorems=["C14_ifcreate_existing_errors", "C14_ifcreate_absent_ok", "C14_always_newer", "C14_newer_dep_is_dirty"]),
     "C17": dict(profiles=["general", "stamp"], want={"query", "fresh"},
                 theorems=["C17_readonly", "C17_disjoint", "C17_cover", "C17_ood_walk_readonly"]),
@@ -33,9 +33,16 @@ def run(res, prop, extra_lines=None, extra_oracle=None, n_quick=150, n_thorough=
     if extra_oracle:
         extra = extra_oracle(run_)
         fails = extra.get("violations", []) + fails
+    searched = None
+    if run_["disagreements"] and not fails:
+        # the tie broke: look for a concrete history on which the PROPERTY fails on the implementation
+        searched = search_failing_input(prop, run_, cfg["want"], extra_oracle)
+        fails = searched["failures"]
     cov = serial.base_coverage(proof, run_, "theories/Build/Model.v (the whole serial build semantics)",
                                "random projects/histories from profiles %s (graph of DSL scripts: plain, default.*, checksummed, always, ifcreate, failing; steps: builds, source edits, .do edits, removals, user overwrites, queries), each executed by the real binaries and by the extracted model and compared after every step (exit status, script trace, records, file contents, database rows and dependency records); non-trivial = history with a rebuild after an edit" % cfg["profiles"])
     cov["oracle_counts"] = counted
+    if searched:
+        cov["failing_input_search"] = {"histories_tried": searched["tried"], "found": len(searched["failures"])}
     cov["oracle_failures"] = len(fails)
     if extra:
         cov["extra"] = {k: v for k, v in extra.items() if k != "violations"}
@@ -50,6 +57,57 @@ def run(res, prop, extra_lines=None, extra_oracle=None, n_quick=150, n_thorough=
         res.violation({"property": prop, "kind": "correspondence", "broken": "Build/Model.v vs the implementation (serial histories)",
                        "theorems_no_longer_tied": cfg["theorems"],
                        "first_disagreements": run_["disagreements"][:3]}, found_input=False)
+
+
+def search_failing_input(prop, run_, want, extra_oracle=None):
+    """Extend the disagreeing histories (prefix up to the disagreeing step) with
+    tails that force rebuilds and re-checks, run them on the implementation
+    only, and evaluate the property oracles."""
+    import e2e
+    r = common.rng(prop + "/search")
+    cands = []
+    for d in run_["disagreements"][:6]:
+        steps = [" ".join(t) for t in serial.steps_of(d["history"])]
+        k = d.get("step", len(steps) - 1)
+        prefix = steps[:max(1, k + 1)]
+        names = set()
+        for t in serial.steps_of(d["history"]):
+            if t[0] == "D" and t[1].endswith(".do") and not t[1].startswith("default"):
+                names.add(t[1][:-3])
+            if t[0] == "C" and t[1] in ("redo", "ifchange"):
+                names |= set(x for x in t[3].split(",") if x != "-")
+        names = sorted(names) or ["t0"]
+        srcs = ["s0", "s1", "s2"]
+        for _ in range(10):
+            tail = []
+            tok = 900
+            for _ in range(r.randint(2, 6)):
+                x = r.random()
+                tok += 1
+                if x < 0.35:
+                    tail.append("C %s k0 %s" % (r.choice(["redo", "ifchange", "ifchange"]), ",".join(r.sample(names, min(len(names), r.randint(1, 3))))))
+                elif x < 0.55:
+                    tail.append("W %s %d" % (r.choice(srcs), tok))
+                elif x < 0.70:
+                    tail.append("W %s %d" % (r.choice(names), tok))
+                elif x < 0.80:
+                    tail.append("R %s" % r.choice(names))
+                    if r.random() < 0.5:
+                        tail.append("C ood k0 -")
+                        tail.append("C ifchange k0 %s" % ",".join(names))
+                else:
+                    tail.append("C %s k0 -" % r.choice(["ood", "targets", "sources"]))
+            tail.append("C ifchange k1 %s" % ",".join(names))
+            cands.append(" ; ".join(prefix + tail))
+        cands.append(" ; ".join(steps))
+    lines = ["P %d ; %s" % (e2e.project_depth(), l) for l in cands]
+    from concurrent.futures import ThreadPoolExecutor
+    with ThreadPoolExecutor(max_workers=common.NCPU) as ex:
+        reals = list(ex.map(lambda il: e2e.run_real(run_["bindir"], il[1], "s%d" % il[0]), enumerate(lines)))
+    fails, _ = oracles.run_oracles(lines, reals, want)
+    if extra_oracle and not fails:
+        fails = extra_oracle({"lines": lines, "reals": reals, "bindir": run_["bindir"]}).get("violations", [])
+    return {"tried": len(lines), "failures": fails}
 
 
 def replay(path):
